@@ -8,6 +8,7 @@ import (
 	"time"
 
 	"github.com/uber-go/tally/v4/m3"
+	m3thrift "github.com/uber-go/tally/v4/m3/thrift/v2"
 
 	"verifharness/mon"
 )
@@ -147,7 +148,25 @@ func c12Life(c *mon.Ctx, r *mon.Rand, force string) {
 				charged = b.Charged[i]
 			}
 			cb.SumCharged += int64(charged)
-			if int32(len(data)) > charged {
+			// the charge is the size measured with maximal field values: it must also
+			// bound the metric as emitted with its value and timestamp at their maxima
+			// (the real clock keeps today's timestamps one varint byte below that)
+			mx := m
+			mx.Timestamp = math.MaxInt64
+			switch {
+			case mx.Value.MetricType == m3thrift.MetricType_COUNTER:
+				mx.Value.Count = math.MaxInt64
+			case mx.Value.MetricType == m3thrift.MetricType_TIMER:
+				mx.Value.Timer = math.MaxInt64
+			case mx.Value.MetricType == m3thrift.MetricType_GAUGE:
+				mx.Value.Gauge = math.MaxFloat64
+			}
+			if dmax, _ := enc.metric(mx); int32(len(dmax)) > charged {
+				nUnder++
+				if nUnder <= 3 {
+					bad("metric-undercharged", fmt.Sprintf("metric %q (%d tags, type %v) would occupy %d bytes with maximal value and timestamp but was charged %d", m.Name, len(m.Tags), m.Value.MetricType, len(dmax), charged))
+				}
+			} else if int32(len(data)) > charged {
 				nUnder++
 				if nUnder <= 3 {
 					bad("metric-undercharged", fmt.Sprintf("metric %q (%d tags, type %v) occupies %d bytes in the batch but was charged %d", m.Name, len(m.Tags), m.Value.MetricType, len(data), charged))
